@@ -177,6 +177,10 @@ def _read_file_first_lines(file_path: Path) -> list[str]:
         return []
 
 
+# Rule names in the space-separated form: words up to a further comment (# ... or // ...)
+_RULE_WORDS = r"(?!//)[^\s#]+(?:\s+(?!//)[^\s#]+)*"
+
+
 def _check_line_for_ignore(line: str, rule_id: str | None) -> bool:
     """Check if line has matching ignore directive."""
     if not has_ignore_directive_marker(line):
@@ -191,7 +195,7 @@ def _check_specific_rule_ignore(line: str, rule_id: str) -> bool:
     bracket_match = re.search(r"ignore-file\[([^\]]+)\]", line, re.IGNORECASE)
     if bracket_match:
         return check_bracket_rules(bracket_match.group(1), rule_id)
-    space_match = re.search(r"ignore-file\s+([^\s#]+(?:\s+[^\s#]+)*)", line, re.IGNORECASE)
+    space_match = re.search(r"ignore-file\s+(" + _RULE_WORDS + ")", line, re.IGNORECASE)
     if space_match:
         return check_space_separated_rules(space_match.group(1), rule_id)
     # A bare "ignore-file" names no rule: it applies to all of them
@@ -207,7 +211,7 @@ def _check_specific_rule_in_line(code: str, rule_id: str) -> bool:
     bracket_match = re.search(_LINE_DIRECTIVE + r"\[([^\]]+)\]", code, re.IGNORECASE)
     if bracket_match:
         return check_bracket_rules(bracket_match.group(1), rule_id)
-    space_match = re.search(_LINE_DIRECTIVE + r"\s+([^\s#]+(?:\s+[^\s#]+)*)", code, re.IGNORECASE)
+    space_match = re.search(_LINE_DIRECTIVE + r"\s+(" + _RULE_WORDS + ")", code, re.IGNORECASE)
     if space_match:
         return check_space_separated_rules(space_match.group(1), rule_id)
     # A bare "thailint: ignore" (nothing but an optional further comment after it) names no
@@ -288,7 +292,7 @@ def _handle_block_end(line_num: int, violation: "Violation", state: _BlockState)
 
 def _parse_ignore_start_rules(line: str) -> set[str]:
     """Extract rule names from ignore-start directive."""
-    match = re.search(r"ignore-start\s+([^\s#]+(?:\s+[^\s#]+)*)", line, re.IGNORECASE)
+    match = re.search(r"ignore-start\s+(" + _RULE_WORDS + ")", line, re.IGNORECASE)
     if match:
         rules_text = match.group(1).strip()
         rules = [r.strip() for r in re.split(r"[,\s]+", rules_text) if r.strip()]
